@@ -129,6 +129,36 @@ Proof.
   apply IH. apply Forall_skipn. exact H.
 Qed.
 
+Lemma chunks_len_each {A} k d : forall (l : list A), length l = (d * k)%nat -> Forall (fun ch => length ch = k) (chunks k d l).
+Proof.
+  induction d as [|d IH]; intros l Hl; cbn [chunks]; constructor.
+  - rewrite firstn_length. cbn in Hl. lia.
+  - apply IH. rewrite skipn_length. cbn in Hl. lia.
+Qed.
+Lemma chunks_len_in {A} k d (l ch : list A) : length l = (d * k)%nat -> In ch (chunks k d l) -> length ch = k.
+Proof. intros Hl Hin. pose proof (chunks_len_each k d l Hl) as H. rewrite Forall_forall in H. apply H. exact Hin. Qed.
+Lemma in_chunks {A} k d : forall (l : list A) x, length l = (d * k)%nat -> In x l -> exists ch, In ch (chunks k d l) /\ In x ch.
+Proof.
+  induction d as [|d IH]; intros l x Hl Hx.
+  - destruct l; [destruct Hx|discriminate Hl].
+  - cbn [chunks]. rewrite <- (firstn_skipn k l) in Hx. apply in_app_or in Hx. destruct Hx as [Hx|Hx].
+    + exists (firstn k l). split; [left; reflexivity|exact Hx].
+    + destruct (IH (skipn k l) x) as [ch [H1 H2]]; [rewrite skipn_length; cbn in Hl; lia|exact Hx|].
+      exists ch. split; [right; exact H1|exact H2].
+Qed.
+(* the shape of an array that satisfies shape_okb, as naturals *)
+Lemma shape_ok_nat shape n : shape_okb shape n = true ->
+  Forall (fun d => (0 <= d)%Z) shape /\ map Z.of_nat (map Z.to_nat shape) = shape /\ n = nprod (map Z.to_nat shape).
+Proof.
+  unfold shape_okb. intros H. apply andb_prop in H. destruct H as [H1 H2]. apply Z.eqb_eq in H2.
+  assert (Hf : Forall (fun d => (0 <= d)%Z) shape).
+  { rewrite forallb_forall in H1. apply Forall_forall. intros d Hd. apply Z.leb_le. apply H1. exact Hd. }
+  split; [exact Hf|]. split.
+  - clear -Hf. induction Hf as [|d l Hd Hl IH]; [reflexivity|]. cbn [map]. rewrite IH, Z2Nat.id by exact Hd. reflexivity.
+  - apply Nat2Z.inj. rewrite <- H2. clear -Hf. induction Hf as [|d l Hd Hl IH]; [reflexivity|].
+    cbn [map nprod zprod]. rewrite Nat2Z.inj_mul, <- IH, Z2Nat.id by exact Hd. reflexivity.
+Qed.
+
 (* a property of closures that holds of the cells' closures holds of every closure tolist_state builds from them, provided
    it holds of the closure that refuses and of the closure "a fresh list around these closures" *)
 Definition list_clo (cs : list clo) : clo :=
